@@ -19,7 +19,7 @@ private def natSet (rest : List Sexp) (key : String) : Nat → Bool :=
   let tbl : Std.HashSet Nat := rs.foldl (fun s r => s.insert r) {}
   fun r => tbl.contains r
 
-private def mkOracles (rest : List Sexp) : Oracles :=
+def mkOracles (rest : List Sexp) : Oracles :=
   let lowerT : Std.HashMap Nat Nat := ((lookup "lower" rest).getD []).foldl (fun m row =>
     match row.nats? with
     | some [i, l] => m.insert i l
